@@ -22,8 +22,10 @@
 (* The environment (writer) picks a configuration `cfg`: class, byte order, *)
 (* a small DWARF payload P whose bytes are written with DieEnc (.debug_info *)
 (* .debug_abbrev .debug_str, a line table, an .eh_frame), an encoding plan   *)
-(* per section (plain / SHF_COMPRESSED with good or bad size or type /      *)
-(* .zdebug framing with good or bad magic, size, length), where the debug   *)
+(* per section (plain / SHF_COMPRESSED with the right, a too big or a too    *)
+(* small declared size, or an unassigned type / .zdebug framing with good   *)
+(* or bad magic, size (both ways), length; .zdebug for some sections only,  *)
+(* as the GNU tools write it when the others do not shrink), where the debug *)
 (* sections live (the opened file, or a separate file behind .gnu_debuglink *)
 (* with a right or wrong CRC), a supplementary link (.gnu_debugaltlink,      *)
 (* .debug_sup with is_supplementary 0 or 1), whether a stream loader exists *)
